@@ -6,7 +6,7 @@ import warnings
 import numpy as np
 from hypothesis import strategies as st
 
-from .. import common, gen as G, loopsem as L, expr as X
+from .. import common, gen as G, loopsem as L, expr as X, loopvmap as LV
 from ..common import Violation
 from . import c01
 from ._base import standard_run, standard_worker
@@ -34,8 +34,8 @@ BAD = ["wrong_shape", "wrong_rank", "list", "none", "pyscalar", "arraylike", "ar
 
 
 @st.composite
-def c13_case(draw, tier="quick"):
-    base = draw(G.call_case(quick=(tier == "quick"), factories=True, backends=[None, "numpy", "numpy.numpylike", "numpy.einsum"]))
+def c13_case(draw, tier="quick", k=0):
+    base = draw(G.stratified_case(k, quick=(tier == "quick"), factories=True, backends=[None, "numpy", "numpy.numpylike", "numpy.einsum", LV.NAME]))
     kinds = [draw(st.sampled_from(KINDS)) for _ in base["ins"]]
     bad = draw(st.sampled_from(BAD))
     bad_pos = draw(st.integers(0, len(base["ins"]) - 1))
@@ -150,6 +150,8 @@ def evaluate(rc, stats):
     import einx
 
     base, kinds = rc["base"], rc["kinds"]
+    if base.get("backend") == LV.NAME:
+        LV.backend()
     op = base["op"]
     fmask = base["fmask"]
     arrays = G.build_arrays(base)
@@ -328,7 +330,7 @@ def replay_case(case):
 
 
 def make_strategy(tier, k):
-    return c13_case(tier)
+    return c13_case(tier, k)
 
 
 def worker(k, n, tier, seed, known_buckets, extra):
